@@ -575,7 +575,7 @@ PROPS = {
         "nontrivial": lambda toks, impl: impl != "panic" and (toks[1] != "export" or toks[4].count(",") >= 1), "tags": _c20_tags,
         "shrink": _c20_shrink,
         "rule": "requests `export K stranded nodes rest`: GFA and JSON text of graphs from the pipeline (60%), hand-made empty / single-node / "
-                "link-free graphs, pipeline graphs with dangling extension bits and removed nodes, with and without a `rest` object (keys with quotes, backslashes, control characters); the JSON is additionally parsed with serde_json and its node and "
+                "link-free graphs, pipeline graphs with dangling extension bits and removed nodes, with and without a `rest` object (keys with quotes, backslashes, control characters); to_gfa (file) must equal write_gfa, to_gfa_with_tags (file) is compared with the model; the JSON is additionally parsed with serde_json and its node and "
                 "link counts compared with the graph; `persist kmer|dna|exts|lmer|graph …`: serde_json round trips with equality and query "
                 "comparison. Non-trivial = export of a graph with >= 2 nodes, or a persist request.",
         "trusted_base": ["serde / serde_json derive code (round trips are tested, not proved)", "Debug of DnaStringSlice (C15) renders the node sequence"],
